@@ -21,7 +21,8 @@ def sh(cmd, cwd=None, env=None, timeout=3600):
 def main():
     pid, n = sys.argv[1], sys.argv[2]
     checks = sys.argv[3:] or [pid]
-    wt = '/tmp/wt_%s' % pid
+    wave = os.environ.get('SEED_WAVE', '')
+    wt = '/tmp/%s_%s' % (wave or 'wt', pid)
     seed = os.path.join(wt, '_seed')
     diff = os.path.join(seed, 'change%s.diff' % n)
     demo = os.path.join(seed, 'demo%s.py' % n)
@@ -47,7 +48,7 @@ def main():
         out['testsuite_with_change'] = ot.strip().splitlines()[-1] if ot.strip() else ''
         out['testsuite_s'] = round(time.time() - t0)
         for c in checks:
-            ev = '/tmp/seed_ev_%s_%s' % (pid, n)
+            ev = '/tmp/seed_ev_%s%s_%s' % (wave, pid, n)
             e2 = dict(os.environ, TV_REPO=wt, TV_EVIDENCE_DIR=ev, TV_REPLAY_DIR=ev + '_rp')
             t0 = time.time()
             rcc, oc = sh('%s/check %s' % (VERIF, c), cwd=VERIF, env=e2, timeout=3000)
@@ -60,7 +61,7 @@ def main():
             shutil.rmtree(ev + '_rp', ignore_errors=True)
     finally:
         sh('git checkout -- torchtt', cwd=wt)
-    d = os.path.join(VERIF, 'seeded', '%s-%s' % (pid, n))
+    d = os.path.join(VERIF, 'seeded', '%s-%s%s' % (pid, (wave + '-') if wave else '', n))
     os.makedirs(d, exist_ok=True)
     shutil.copy(diff, os.path.join(d, 'patch.diff'))
     shutil.copy(demo, os.path.join(d, 'demo.py'))
